@@ -1,4 +1,4 @@
 SPECIFICATION Spec
 CONSTANTS K = 16
-INVARIANTS InvL1SameAsSolo InvL1DeferLIFO InvL1NoLiveProcess InvL1NothingLeft InvL1RootLast InvL1HostUnchanged InvL1HostVarsInvisible InvL1Terminates InvL1DocumentedEnv InvL1FreshWorkdir
+INVARIANTS InvL1SameAsSolo InvL1DeferLIFO InvL1NoLiveProcess InvL1NothingLeft InvL1RootLast InvL1HostUnchanged InvL1HostVarsInvisible InvL1Terminates InvL1DocumentedEnv InvL1FreshWorkdir InvL1OwnFilesOnly
 CHECK_DEADLOCK FALSE
